@@ -39,6 +39,24 @@ class AnalysisError(Exception):
     floor missed).  Never a verdict about the code."""
 
 
+class _AtStripper(ast.NodeTransformer):
+    def visit_Call(self, node):
+        self.generic_visit(node)
+        if isinstance(node.func, ast.Name) and node.func.id == "__at" and len(node.args) == 2:
+            return node.args[1]
+        return node
+
+
+def strip_at_deep(expr):
+    """copy of expr with every snapshot marker removed"""
+    return _AtStripper().visit(clone(expr))
+
+
+def plain(expr):
+    """text of an expression without snapshot markers"""
+    return unparse(strip_at_deep(expr))
+
+
 class UnknownAtom(AnalysisError):
     """A condition the rule's classifier does not know.  Decision-table rules treat
     it as a *free* boolean: both outcomes are explored and each must agree with the
